@@ -453,7 +453,7 @@ func codeCat(codespace string, code uint32) int {
 	return 3
 }
 
-func short(s string) string {
+func feeShort(s string) string {
 	if len(s) > 140 {
 		return s[:140]
 	}
@@ -493,19 +493,19 @@ func (e *feeEnv) rawEvm(ctx sdk.Context, tx sdk.Tx, etxs []*ethtypes.Transaction
 	for i, etx := range etxs {
 		cfg, err := k.EVMConfig(fork, sdk.ConsAddress(fork.BlockHeader().ProposerAddress), k.ChainID())
 		if err != nil {
-			outs[i].Err = short(err.Error())
+			outs[i].Err = feeShort(err.Error())
 			return outs
 		}
 		signer := ethtypes.MakeSigner(cfg.ChainConfig, big.NewInt(fork.BlockHeight()))
 		msg, err := etx.AsMessage(signer, cfg.BaseFee)
 		if err != nil {
-			outs[i].Err = short(err.Error())
+			outs[i].Err = feeShort(err.Error())
 			return outs
 		}
 		tr := &feeTracer{}
 		res, err := k.ApplyMessageWithConfig(fork, msg, tr, true, cfg, k.TxConfig(fork, etx.Hash()))
 		if err != nil {
-			outs[i].Err = short(err.Error())
+			outs[i].Err = feeShort(err.Error())
 			return outs
 		}
 		intr, _ := core.IntrinsicGas(msg.Data(), msg.AccessList(), msg.To() == nil, true, true)
@@ -520,7 +520,7 @@ func (e *feeEnv) rawEvm(ctx sdk.Context, tx sdk.Tx, etxs []*ethtypes.Transaction
 		}
 		outs[i] = o
 		if err := k.RefundGas(fork, msg, msg.Gas()-res.GasUsed, cfg.Params.EvmDenom); err != nil {
-			outs[i] = feeEvm{Hard: true, Err: short(err.Error())}
+			outs[i] = feeEvm{Hard: true, Err: feeShort(err.Error())}
 			return outs
 		}
 	}
@@ -614,7 +614,7 @@ func (e *feeEnv) runTx(t feeTx) (o feeObs) {
 		o.CkCat = errCat(cerr)
 		if cerr != nil {
 			o.Check = 1
-			o.CkLog = short(cerr.Error())
+			o.CkLog = feeShort(cerr.Error())
 		}
 	}
 	uniq := map[common.Address]bool{}
@@ -656,11 +656,11 @@ func (e *feeEnv) runTx(t feeTx) (o feeObs) {
 		}
 	case antePassed:
 		o.Code = 4
-		o.Log = short(res.Log)
+		o.Log = feeShort(res.Log)
 	default:
 		o.Code = 1
 		o.Cat = codeCat(res.Codespace, res.Code)
-		o.Log = short(res.Log)
+		o.Log = feeShort(res.Log)
 	}
 	if antePassed && t.Route == "eth" {
 		o.Wanted, o.Used = uint64(res.GasWanted), uint64(res.GasUsed)
@@ -801,7 +801,7 @@ func feeOracle(p feeParams, t feeTx, o feeObs, strict bool) (msg string, belowFl
 }
 
 // ---------------------------------------------------------------- Coq terms
-func coqZs(s string) string { return coqZ(bigOf(s)) }
+func feeCoqZs(s string) string { return coqZ(bigOf(s)) }
 func coqZu(x uint64) string { return coqZ(new(big.Int).SetUint64(x)) }
 
 func (m feeMsg) coq() string {
@@ -810,7 +810,7 @@ func (m feeMsg) coq() string {
 	if m.Type == 2 {
 		tip = m.Tip
 	}
-	return fmt.Sprintf("(mkmsg %s %s %s %s %s %s)", ty, coqZu(m.Gas), coqZs(m.Price), coqZs(tip), coqZs(m.Value), coqZu(m.intrinsic()))
+	return fmt.Sprintf("(mkmsg %s %s %s %s %s %s)", ty, coqZu(m.Gas), feeCoqZs(m.Price), feeCoqZs(tip), feeCoqZs(m.Value), coqZu(m.intrinsic()))
 }
 
 func (v feeEvm) coq() string {
@@ -824,13 +824,13 @@ func (t feeTx) coq(o feeObs) string {
 	if t.Route == "cosmos" {
 		fs := []string{}
 		for _, c := range t.Fee {
-			fs = append(fs, fmt.Sprintf("(%d%%N, %s)", c.D, coqZs(c.A)))
+			fs = append(fs, fmt.Sprintf("(%d%%N, %s)", c.D, feeCoqZs(c.A)))
 		}
 		tip := "None"
 		if t.Tip != nil {
-			tip = "(Some " + coqZs(*t.Tip) + ")"
+			tip = "(Some " + feeCoqZs(*t.Tip) + ")"
 		}
-		return fmt.Sprintf("(CosmosTx %s %s %s %s)", coqZu(t.Gas), coqList(fs), tip, coqZs(t.Send))
+		return fmt.Sprintf("(CosmosTx %s %s %s %s)", coqZu(t.Gas), coqList(fs), tip, feeCoqZs(t.Send))
 	}
 	ms, es := []string{}, []string{}
 	for _, m := range t.Msgs {
@@ -847,7 +847,7 @@ func (o feeObs) coq() string {
 	for _, u := range o.MsgUsed {
 		us = append(us, coqZu(u))
 	}
-	return fmt.Sprintf("(mkobs %d%%N %d%%N %s %s %s %s %s %s)", o.Code, o.Check, coqZi(o.Prio), coqZu(o.Wanted), coqZu(o.Used), coqZs(o.Net), coqZs(o.Coll), coqList(us))
+	return fmt.Sprintf("(mkobs %d%%N %d%%N %s %s %s %s %s %s)", o.Code, o.Check, coqZi(o.Prio), coqZu(o.Wanted), coqZu(o.Used), feeCoqZs(o.Net), feeCoqZs(o.Coll), coqList(us))
 }
 
 func (p feeParams) coq() string {
@@ -855,7 +855,7 @@ func (p feeParams) coq() string {
 	if p.NoBase {
 		base = "0"
 	}
-	return fmt.Sprintf("(mkparams %s %s %s 5%%Z)", coqZs(p.Mgp), coqZs(base), coqZs(p.Mult))
+	return fmt.Sprintf("(mkparams %s %s %s 5%%Z)", feeCoqZs(p.Mgp), feeCoqZs(base), feeCoqZs(p.Mult))
 }
 
 // ---------------------------------------------------------------- one case
@@ -880,7 +880,7 @@ func feesRunCase(id string, in feeInput, strict bool) Case {
 	for i, t := range in.Txs {
 		o := e.runTx(t)
 		obs = append(obs, o)
-		steps = append(steps, fmt.Sprintf("(%s, %s, %s, %s)", coqZs(o.Bal0), coqZs(o.Coll0), t.coq(o), o.coq()))
+		steps = append(steps, fmt.Sprintf("(%s, %s, %s, %s)", feeCoqZs(o.Bal0), feeCoqZs(o.Coll0), t.coq(o), o.coq()))
 		m, b := feeOracle(in.Params, t, o, strict)
 		if m != "" && msgAll == "" {
 			msgAll = fmt.Sprintf("tx %d: %s", i, m)
